@@ -211,6 +211,7 @@ BMODELS = [
     ('linop', dict(fclass='linop', steps=['grad'], value_metric=False)),
     ('partition', dict(fclass='ssc', steps=['grad'], partition=2)),
     ('composite', dict(fclass='convex', second='sc', steps=['grad', 'prox'])),
+    ('three-functions', dict(fclass='ssc', second='convex', steps=['grad', 'prox'], unused=True)),
 ]
 
 
@@ -221,7 +222,7 @@ def cases(tier):
     for bname, bspec in bm:
         for be in ('cvxpy', 'mosek'):
             for fi in range(len(FRAGMENTS)):
-                if tier == 'quick' and ((be == 'mosek' and bname in ('composite', 'gd-cons', 'quad'))
+                if tier == 'quick' and ((be == 'mosek' and bname in ('composite', 'gd-cons', 'quad', 'three-functions'))
                                         or (be == 'cvxpy' and bname in ('linop', 'composite'))):
                     continue
                 cs.append(dict(id="%s-%s-A%d" % (bname, be, fi), bname=bname, bspec=bspec, backend=be, k=k, forced=[fi],
